@@ -419,6 +419,14 @@ def r16_4_invariant(ctx, prog, rule="R16.4"):
                         failed.append("try_into on an unrecognised slice")
                         continue
                     prove_eq("header slice is exactly 20 bytes", minus(minus(x[1], x[0]), {1: 20}))
+                elif re.search(r"slice::<impl \[.*\]>::first_chunk(_mut)?::<(\d+)>$", e[1]):
+                    # s.first_chunk::<N>() is Some exactly when len(s) >= N: the header read needs its 20 bytes
+                    nn = int(re.search(r"::<(\d+)>$", e[1]).group(1))
+                    x = _abs_extent(args[0])
+                    if x is None:
+                        failed.append("first_chunk on an unrecognised slice")
+                        continue
+                    prove("first_chunk::<%d>: the slice has at least %d bytes" % (nn, nn), minus(minus(x[2], x[1]), {1: nn}))
                 elif re.search(r"StunPacket::new$", e[1]):
                     prove("packet size <= buffer.len()", minus({"B": 1}, named_lin(args[1])))
                 elif re.search(r"Vec::<.*>::(push|resize\w*|truncate|clear|pop|insert|remove|extend\w*|append|drain|split_off|shrink\w*|reserve\w*|set_len)$", e[1]) \
